@@ -67,6 +67,32 @@ def constexpr_inputs(ctx):
                     lines.append("long long x%d = %s %s %s;\n" % (len(lines), val(lt, av), op, val(rt, bv)))
     for i in range(0, len(lines), 400):
         out.append(("".join(lines[i:i + 400]), ["x86_64-sysv", "aarch64", "riscv64"][(i // 400) % 3]))
+    # floating <-> integer conversions of constants at the representability boundaries: the folder's range tests compare
+    # with floating literals of cproc's own source (eval.c), which stage 2 gets through stage 1's printing of them (seed
+    # c02-e).  One declaration per input: a rejected conversion must not hide the next one.
+    import math, struct
+    def nxt(x, up):
+        return math.nextafter(x, math.inf if up else -math.inf)
+    def nxtf(x, up):
+        b = struct.unpack("<I", struct.pack("<f", x))[0]
+        b = b + 1 if (x > 0) == up else b - 1
+        return struct.unpack("<f", struct.pack("<I", b))[0]
+    fl = []
+    for k in (0, 1, 7, 8, 15, 16, 24, 31, 32, 53, 63, 64):
+        for sgn in (1.0, -1.0):
+            d = sgn * 2.0 ** k
+            for v in (d, nxt(d, True), nxt(d, False), d - sgn * 0.5 if k < 52 else d):
+                fl.append(v.hex())
+            for v in (d, nxtf(d, True), nxtf(d, False)):
+                fl.append(v.hex() + "f")
+    fl = sorted(set(fl))
+    for t in minic.INTS:
+        for i, h_ in enumerate(fl):
+            out.append(("%s x = %s;\n" % (minic.CNAME[t], h_), ["x86_64-sysv", "aarch64", "riscv64"][i % 3]))
+    for lit_ in ("0xffffffffffffffffULL", "0x8000000000000000ULL", "0x7fffffffffffffffLL", "(-0x7fffffffffffffffLL-1)", "0xfffffffffffff800ULL",
+                 "0xfffffffffffffbffULL", "0xfffffffffffffc00ULL", "0x20000000000001LL", "0x1000001", "0xffffff7f", "0xffffff80U", "16777217"):
+        for ft in ("float", "double"):
+            out.append(("%s x = %s;\nlong long y = (long long)(%s)%s == %s;\n" % (ft, lit_, ft, lit_, lit_), "x86_64-sysv"))
     return out
 
 
